@@ -245,6 +245,20 @@ def diff_hashes(a, b):
 
 # ----------------------------------------------------------------------------------------------
 
+def _jsonable(o, path="cov"):
+    if isinstance(o, (bytes, bytearray)):
+        raise TypeError("bytes at " + path)
+    if isinstance(o, dict):
+        for k, v in o.items():
+            if not isinstance(k, str):
+                raise TypeError("non-string key %r at %s" % (k, path))
+            _jsonable(v, path + "." + k)
+    elif isinstance(o, (list, tuple)):
+        for i, v in enumerate(o):
+            _jsonable(v, "%s[%d]" % (path, i))
+    return o
+
+
 def comps(path):
     return [c.encode() for c in path.split("/") if c != ""]
 
@@ -398,6 +412,17 @@ def run(ctx, br):
     seq = json.loads(out.strip().split("\n")[-1])
     if seq.get("code", 0) != 0:
         raise RuntimeError("vh_c19 compile_seq: %s" % seq.get("msg"))
+    glob_cases = []
+    for n, (key, jr, sj) in enumerate(zip(seq_keys, seq["results"], seq_jobs)):
+        if n in (0, 1, len(seq_jobs) // 2, len(seq_jobs) - 1) and jr.get("globals"):
+            ghist = [[[os.path.dirname(j["file"]).encode(), j["gen"].encode(), j["out"].encode(), b".", 1],
+                     [f.encode() for f in sorted(programs[k[0]]["files"])]]
+                    for j, k in zip(seq_jobs[:n + 1], seq_keys[:n + 1])]
+            gl = jr["globals"]
+            glob_cases.append(([7, ghist, [gl[0].encode(), gl[1].encode(), gl[2].encode(), gl[3].encode(),
+                                          int(gl[4]), int(gl[5]), int(gl[6]), int(gl[7])]],
+                               ("globals_after_compiles", programs[key[0]], key[1], programs[key[0]]["rootA"],
+                                {"globals": gl, "n_compiles_before": n})))
     for key, jr, sj in zip(seq_keys, seq["results"], seq_jobs):
         n_eval += 1
         if jr.get("code", 0) != 0:
@@ -447,6 +472,9 @@ def run(ctx, br):
         if gen == "html":
             cases.append([3, nodes, root_idx, [[n.encode(), strip_root(f, root).encode()] for n, f in resp.get("html", [])]])
             case_info.append(("html_modules", prog, gen, root, resp))
+        if gen == "json":
+            cases.append([4, nodes, root_idx, [strip_root(f, root).encode() for f in resp.get("json", [])]])
+            case_info.append(("json_collect", prog, gen, root, resp))
         if gen == "go":
             for fi in resp["files"]:
                 src = prog["meta"].get(strip_root(fi["file"], root), {}).get("scopes_src")
@@ -478,13 +506,16 @@ def run(ctx, br):
                 od = comps(out_abs) + ([c.encode() for c in ns.split(".")] if ns else [m["name"].encode()])
                 cases.append([6, comps(out_abs), od, [comps(d) for d in dirs]])
                 case_info.append(("py_init_chain", prog, "py", root, {"file": rel, "dirs": dirs}))
+    for c, info in glob_cases:
+        cases.append(c)
+        case_info.append(info)
     verdicts = vlib.run_judge(ctx.rundir, "JMapOrder", "judge", cases)
     mism = [i for i, v in enumerate(verdicts) if v < 0]
     for i in mism[:10]:
         what, prog, gen, root, obs = case_info[i]
         rep = {"kind": what, "gen": gen, "root": root, "program": prog["files"],
-               "observed": obs if what in ("scope_order", "py_init_chain", "output_dir") else
-               {"plan": obs.get("plan"), "html": obs.get("html"), "use_vendor": obs.get("use_vendor")},
+               "observed": obs if what in ("scope_order", "py_init_chain", "output_dir", "globals_after_compiles") else
+               {"plan": obs.get("plan"), "html": obs.get("html"), "json": obs.get("json"), "use_vendor": obs.get("use_vendor")},
                "no_failing_input_found": True,
                "broken": "correspondence JMapOrder.judge (%s): Model/MapOrder.v disagrees with the implementation" % what}
         ctx.violation("C19 correspondence: model and implementation disagree on %s" % what, rep)
@@ -499,7 +530,9 @@ def run(ctx, br):
         "ordering discipline, the generation plan and the output locations",
         "java:generated_annotations=use is excluded (dated by design)",
     ]
-    return {
+    for v in ctx.violations:
+        _jsonable(v["replay"], "replay")
+    return _jsonable({
         "evaluations": n_eval + len(cases),
         "compilations": n_eval,
         "distinct_nontrivial": distinct,
@@ -518,4 +551,4 @@ def run(ctx, br):
         "samples": [{"gen": j[1], "variant": j[2], "cwd": strip_root(j[3], work), "file": strip_root(j[4], work),
                      "out": strip_root(j[5], work), "n_files": len(r[1]) if r[0] == 0 else None}
                     for j, r in list(zip(jobs, results))[:: max(1, len(jobs) // 4)]][:4],
-    }
+    })
